@@ -106,11 +106,10 @@ class RTDCBase(abc.ABC):
                 or feat in self.features_basin):
             ct = True
         else:
-            # Check ancillary features data
-            if feat in self._ancillaries:
-                # already computed
-                ct = True
-            elif feat in AncillaryFeature.feature_names:
+            # Check ancillary features data. Do not rely on `self._ancillaries`
+            # here: A feature that was computed before is not available
+            # anymore if e.g. a required configuration key was removed.
+            if feat in AncillaryFeature.feature_names:
                 # get all instance of AncillaryFeature that
                 # check availability of the feature `feat`
                 instlist = AncillaryFeature.get_instances(feat)
